@@ -276,6 +276,55 @@ def cache_key(V, accel, diff):
     return cl
 
 
+def scale_cache_key(V, diff):
+    """packed scale records are reused only for the same bias values AND the same input and output scales: two requests with the same weights
+    (the weight stream is served from the cache) whose scale tensor differs in exactly one of {bias values (value_id), IFM scale, OFM scale}, or in
+    nothing.  The scales are symbolic floats; the second request must go through the scale derivation again unless nothing differs."""
+    import ethosu.vela.weight_compressor as wc
+    from symx import fp
+
+    depth = 32
+    arch, op, wt, st, kernel = _setup(V, "Ethos_U55_128", depth)
+    s_in, s_out = V.extra("float", "ifm_scale", "f32"), V.extra("float", "ofm_scale", "f32")
+    d_in, d_out = V.extra("float", "other_ifm_scale", "f32"), V.extra("float", "other_ofm_scale", "f32")
+    pos = lambda x: z3.And(z3.fpGT(fp.F(x), z3.FPVal(2.0 ** -20, fp.F32)), z3.fpLT(fp.F(x), z3.FPVal(64.0, fp.F32)))  # noqa: E731
+    if V.symbolic:
+        V.assume(z3.And(pos(s_in), pos(s_out), pos(d_in), pos(d_out), z3.Not(z3.fpEQ(fp.F(d_in), fp.F(s_in))), z3.Not(z3.fpEQ(fp.F(d_out), fp.F(s_out)))))
+    elif not (float(d_in) != float(s_in) and float(d_out) != float(s_out) and all(2.0 ** -20 < float(x) < 64.0 for x in (s_in, s_out, d_in, d_out))):
+        raise core.PathAbort("replay values outside the assumptions")
+
+    def scale_tensor(ifm_scale, ofm_scale, vid):
+        cons = _Obj(get_input_quantization=lambda: _Obj(scale_f32=ifm_scale, zero_point=0), get_output_quantization=lambda: _Obj(scale_f32=ofm_scale, zero_point=0))
+        return _Obj(**dict(st.__dict__, consumer_list=[cons], value_id=vid))
+
+    st1 = scale_tensor(s_in, s_out, "bias_values_1")
+    st2 = scale_tensor(d_in if diff == "ifm_scale" else s_in, d_out if diff == "ofm_scale" else s_out, "bias_values_2" if diff == "bias_values" else "bias_values_1")
+    prepared = []
+
+    def fake_prepare(a, t, e):
+        prepared.append(t)
+        return [(c, 0) for c in range(depth)], list(range(depth))
+
+    saved = (wc.encode_weights, wc._prepare_scale_and_bias, dict(wc.CompressedWeightCache.cache))
+    wc.CompressedWeightCache.cache.clear()
+    wc.encode_weights = lambda *a, **k: ((_Stream(16) if V.symbolic else bytearray(16)), None)
+    wc._prepare_scale_and_bias = fake_prepare
+    bc = _Obj(ofm_block=_Obj(depth=16))
+    try:
+        with core.shims((wc, {"bytearray": _bytearray, "len": _slen, "int": core.IntShim})):
+            t1, _ = wc.encode_weight_and_scale_tensor(arch, op, wt, st1, kernel, bc, [0, 16, 32])
+            n1 = len(prepared)
+            t2, s2 = wc.encode_weight_and_scale_tensor(arch, op, wt, st2, kernel, bc, [0, 16, 32])
+    finally:
+        wc.encode_weights, wc._prepare_scale_and_bias = saved[:2]
+        wc.CompressedWeightCache.cache.clear()
+        wc.CompressedWeightCache.cache.update(saved[2])
+    again = len(prepared) > n1 and prepared[-1] is st2
+    if diff == "none":
+        return [("identical scale request: weights and scales served from the cache", t2 is t1 and s2 is None and not again)]
+    return [("a request that differs in %s reuses the weight stream but derives and packs its own scale records" % diff, again and t2 is t1 and s2 is not None)]
+
+
 def bias(V):
     import ethosu.vela.weight_compressor as wc
 
@@ -539,11 +588,13 @@ def idle_core(V, **params):
     return c06.pair(V, **params)
 
 
-FUNCS = {"idle_core": idle_core, "scale_values": scale_values, "scale_quantisation": scale_quantisation, "buffering": buffering, "weight_ranges": weight_ranges, "codec_args": codec_args, "encode": encode, "cache": cache, "cache_key": cache_key, "bias": bias, "bias_rejects": bias_rejects}
+FUNCS = {"idle_core": idle_core, "scale_values": scale_values, "scale_quantisation": scale_quantisation, "buffering": buffering, "weight_ranges": weight_ranges, "codec_args": codec_args, "encode": encode, "cache": cache, "cache_key": cache_key, "scale_cache_key": scale_cache_key, "bias": bias, "bias_rejects": bias_rejects}
 
 
 def instances(tier, seed):
     out = []
+    for diff in ("none", "bias_values", "ifm_scale", "ofm_scale"):
+        out.append(dict(key="scale_cache_key/%s" % diff, fn="scale_cache_key", params=dict(diff=diff)))
     for gname in ("weights", "biases"):
         out.append(dict(key="idle_core/%s" % gname, fn="idle_core", params=dict(accel="Ethos_U65_512", kind="conv", group=gname, light=True), weight=100))
     for accel in ("Ethos_U55_128", "Ethos_U65_512"):
